@@ -30,6 +30,9 @@ def serve_one(req):
             kw = dict(req.get("kw") or {})
             if "plugins" in kw and kw["plugins"] is not None:
                 kw["plugins"] = tuple(kw["plugins"])
+            if "renderer_obj" in kw:
+                from mistune.renderers.html import HTMLRenderer
+                kw["renderer"] = HTMLRenderer(**kw.pop("renderer_obj"))
             r = mistune.markdown(req["doc"], **kw)
         else:
             r = build(req["kind"])(req["doc"])
